@@ -75,6 +75,25 @@ fn make_case(ctx: &Ctx, i: u64) -> Option<Case> {
             bytes: f.bytes,
             foreign: true,
         })
+    } else if i % 160 == 81 {
+        // >= 2^17 ids backed by one content + a few others
+        let codec = R::CODECS[((i / 2) % 4) as usize];
+        let mut l = gen::gen_logical(&mut rng, gen::SizeClass::Small, codec);
+        let shared = std::rc::Rc::new(rng.bytes(600));
+        let start = 1_000_000 + rng.below(1000);
+        for k in 0..(140_000 + rng.below(9000)) {
+            l.tiles.insert(start + k, shared.clone());
+        }
+        l.class = String::from("one content under >= 2^17 ids");
+        let bytes = write_sync(l.build()).ok()?;
+        let v = R::validate(&bytes, &crate::checks::common::strict_opts()).ok()?;
+        Some(Case {
+            header: v.header,
+            truth: v.abs,
+            label: format!("library-written {} {}", l.class, R::codec_name(l.internal_compression)),
+            bytes,
+            foreign: false,
+        })
     } else {
         let l = logical_for(ctx, "c20.logical", i);
         let bytes = write_sync(l.build()).ok()?;
